@@ -123,7 +123,12 @@ class RSocketClient(RSocketBase):
     async def _close(self, reconnect=False):
 
         if not reconnect:
-            await cancel_if_task_exists(self._reconnect_task)
+            # cancelled but not awaited: close() may be called from on_close while the reconnect listener is
+            # closing the old connection, and the listener then waits for the task which runs this call-back.
+            reconnect_task, self._reconnect_task = self._reconnect_task, None
+
+            if reconnect_task is not None and reconnect_task is not asyncio.current_task():
+                reconnect_task.cancel()
         else:
             logger().debug('%s: Closing before reconnect', self._log_identifier())
 
@@ -155,6 +160,10 @@ class RSocketClient(RSocketBase):
                     self._connecting = True
                     self._connect_request_event.clear()
                     await self._close(reconnect=True)
+
+                    if self._reconnect_task is not asyncio.current_task():
+                        return  # the client was closed while the old connection was being closed
+
                     self._next_transport = create_future()
                     await self.connect()
                 finally:
